@@ -172,7 +172,7 @@ func sDecodeChunk(f *sFile, r sRec) *sChunk {
 	switch c.comp {
 	case "":
 		c.data = stored
-	case "xor":
+	case "xor", "xor_long_name_22_bytes":
 		c.data = make([]byte, len(stored))
 		for i := range stored {
 			c.data[i] = stored[i] ^ 0x5a
